@@ -99,6 +99,16 @@ func runCloseBound(rep *Report, row cbRow, closedAt *sync.Map) {
 	case "closeReadActive", "closeReadData":
 		closeReadCtx = c.CloseRead(context.Background())
 		close(blockedDone)
+	case "writerHalfOpen":
+		// a streaming writer left open with row.K unflushed bytes in the library's write buffer
+		go func() {
+			defer close(blockedDone)
+			w, err := c.Writer(context.Background(), websocket.MessageBinary)
+			if err == nil {
+				w.Write(make([]byte, row.K))
+			}
+		}()
+		time.Sleep(20 * time.Millisecond)
 	case "writerBlocked":
 		raw.In.Cap = 1
 		go func() {
